@@ -356,7 +356,7 @@ PROPS = {
                         "no EXPUNGE update is sent while an EXPUNGE command is pending, no untagged SEARCH while two searches are pending (RFC 9051 5.5)",
                         "unsolicited FETCH data is compared as a multiset (handlers run in their own goroutines)"],
         "units": [
-            rapid("c12", "TestPropRouting", quick=(5000, 8), thorough=(20000, 14)),
+            rapid("c12", "TestPropRouting", quick=(3000, 8), thorough=(20000, 14)),
         ],
     },
     "C11": {
